@@ -287,6 +287,62 @@ fn sweep_mem(rep: &Reporter, c: &Counters, thorough: bool) -> usize {
     n
 }
 
+/// EVERY catalog shape with a register-based memory operand (all instruction kinds, not only the 12 consumers
+/// above), with the address registers solved so that the operand lies at 0xFFFFE, 0xFFFFF (a word operand then
+/// has its high byte at physical 0) and 0x100000 (= 0), for two segment values. LEA accesses no memory and is
+/// left to the sweep above (its recorded finding is keyed on that sweep's destination register).
+fn sweep_catalog_wrap(rep: &Reporter, c: &Counters, thorough: bool) -> usize {
+    let cat = crate::catalog::catalog(&crate::catalog::CatOpts { disps: if thorough { vec![2, -3, 0x7FFF] } else { vec![2, -3] }, all_regs: thorough });
+    let shapes: Vec<&Instr> = cat
+        .iter()
+        .filter(|i| {
+            let mems: Vec<&Opnd> = i.operands().into_iter().filter(|o| matches!(o, Opnd::Mem(..))).collect();
+            mems.len() == 1 && !matches!(i, Instr::Str(..) | Instr::Lea(..)) && matches!(mems[0], Opnd::Mem(_, m) if !m.regs().is_empty())
+        })
+        .collect();
+    let n = shapes.len();
+    shapes.par_iter().for_each(|i| {
+        with_worker(|wk| {
+            let (w, m) = match i.operands().into_iter().find(|o| matches!(o, Opnd::Mem(..))) {
+                Some(Opnd::Mem(w, m)) => (*w, *m),
+                _ => return,
+            };
+            let site = i.shape();
+            let mut p = match prepare(i) {
+                Ok(p) => p,
+                Err(e) => {
+                    c.block(format!("{}: {:?}", site, e));
+                    return;
+                }
+            };
+            let nregs = m.regs().len();
+            let d: i64 = match m.form {
+                MemForm::RegDisp(_, d) => d as i64,
+                MemForm::BaseIndex(_, _, d) => d.unwrap_or(0) as i64,
+                _ => 0,
+            };
+            for sv in [0xFFFFu16, 0xF001] {
+                for target in [0xFFFFEi64, 0xFFFFF, 0x100000] {
+                    let off = target - sv as i64 * 16;
+                    if off < 0 || off > 0xFFFF {
+                        continue;
+                    }
+                    let x: u16 = if nregs >= 2 { 0x0007 } else { 0 };
+                    // both address registers may be the same register ([bx, bx] does not exist; base and index differ)
+                    let b = (off - d - x as i64).rem_euclid(1 << 16) as u16;
+                    let mv: u32 = if w == W::B { 0x7C } else { 0x7C3E };
+                    let rv: u32 = if w == W::B { 0x91 } else { 0x91A7 };
+                    let (pre, addr, off, segv) = state_for(i, &m, w, b, x, sv, mv, rv, &p.dc);
+                    wk.case(rep, c, &mut p, &pre, &site, &[("base", b as i64), ("index", x as i64), ("segv", segv as i64), ("off", off as i64), ("addr", addr as i64), ("w", w.bits() as i64)], b as u64 + sv as u64, true);
+                }
+            }
+            c.shapes.fetch_add(1, Ordering::Relaxed);
+            wk.flush(c);
+        })
+    });
+    n
+}
+
 /// data-label operands with DS in S6
 fn sweep_labels(rep: &Reporter, c: &Counters) {
     let mut is: Vec<Instr> = Vec::new();
@@ -386,12 +442,13 @@ pub fn run(tier: &Tier) -> i32 {
     let rep = Reporter::new("C04", tier.name());
     let c = Counters::default();
     let n = sweep_mem(&rep, &c, tier.thorough);
+    let n_wrap = sweep_catalog_wrap(&rep, &c, tier.thorough);
     sweep_labels(&rep, &c);
     sweep_byte_alias(&rep, &c);
     let mut cov = Coverage::default();
     cov.exhaustive = true;
-    cov.rule = "every case = (consumer instruction with one memory operand, pre-state): all address forms of syntax.md (direct, indirect, based, indexed, based-indexed, with 8 displacements incl. negative and wrapping ones) x {no override, ES, CS, SS, DS} x both widths x 12 consumers (loads, stores, read-modify-writes, xchg, lea, destination aliasing an address register) x base/index register lattice x 6 segment values chosen so that seg*16+off straddles 2^20, plus, for every shape, register values solved so that seg*16+off is exactly 0xFFFFE, 0xFFFFF, 2^20, 2^20+1, 2^20+2 for three segment values. The operand value sits only at the reference address; decoy markers sit at the same offset in the other segments, at the unwrapped offset and at the neighbouring bytes; the whole 1 MB is compared after every execution. Plus data-label operands with 6 DS values and byte-register aliasing (8 registers x 256 values x parent lattice)".into();
-    cov.bounds = json!({"mem_shapes": n, "register_values": if tier.thorough {15} else {4}, "segments": if tier.thorough {10} else {6}, "tier": tier.name()});
+    cov.rule = "every case = (consumer instruction with one memory operand, pre-state): all address forms of syntax.md (direct, indirect, based, indexed, based-indexed, with 8 displacements incl. negative and wrapping ones) x {no override, ES, CS, SS, DS} x both widths x 12 consumers (loads, stores, read-modify-writes, xchg, lea, destination aliasing an address register) x base/index register lattice x 6 segment values chosen so that seg*16+off straddles 2^20, plus, for every shape, register values solved so that seg*16+off is exactly 0xFFFFE, 0xFFFFF, 2^20, 2^20+1, 2^20+2 for three segment values. The operand value sits only at the reference address; decoy markers sit at the same offset in the other segments, at the unwrapped offset and at the neighbouring bytes; the whole 1 MB is compared after every execution. Plus EVERY shape of the instruction catalog that has a register-based memory operand (all instruction kinds) with the operand solved to lie at 0xFFFFE, 0xFFFFF and 2^20 for two segment values. Plus data-label operands with 6 DS values and byte-register aliasing (8 registers x 256 values x parent lattice)".into();
+    cov.bounds = json!({"mem_shapes": n, "catalog_shapes_at_the_top_of_memory": n_wrap, "register_values": if tier.thorough {15} else {4}, "segments": if tier.thorough {10} else {6}, "tier": tier.name()});
     cov.assumptions = common_assumptions();
     cov.assumptions.push("physical address = (segment*16 + ((base+index+disp) mod 2^16)) mod 2^20; default segment SS iff BP is the base".into());
     let cov = finish_cov(&c, cov);
